@@ -265,6 +265,9 @@ def call_class(I, c, args, kwargs, fr, node):
     if n == 'dict':
         if not args and not kwargs:
             return ctx.alloc(HObj('dict', 'dict', {'keys': [], 'vals': []}, closed=True))
+        if not args:
+            # dict(a=x, b=y): string keys in the order given
+            return ctx.alloc(HObj('dict', 'dict', {'keys': [VStr(k, 's') for k in kwargs], 'vals': list(kwargs.values())}, closed=True))
         raise Unsupported('dict(...)')
     if n == 'tuple':
         return VTuple(I.concrete_items(args[0]))
@@ -425,6 +428,10 @@ def str_method(I, self, meth, args, kwargs, fr, node):
         F = z3.Function('%s_%s' % (meth, cname.replace('-', '')), z3.StringSort(), z3.StringSort())
         ok = z3.Function('%sable_%s' % (meth, cname.replace('-', '')), z3.StringSort(), z3.BoolSort())
         lenient = errors is not None
+        lit = z3.simplify(s.t)
+        plain_ascii = z3.is_string_value(lit) and all(ord(c) < 128 for c in lit.as_string()) and '\\u{' not in lit.as_string()
+        if plain_ascii and cname in ('ascii', 'utf-8', 'utf8', 'latin-1', 'latin1'):
+            return VStr(s.t, out_kind)          # a literal of ASCII characters: the same code units in every such codec
         if not lenient and not (cname in ('utf-8', 'utf8') and meth == 'encode'):
             if not ctx.decide(ok(s.t), '%s-ok' % meth):
                 I.raise_exc('UnicodeEncodeError' if meth == 'encode' else 'UnicodeDecodeError')
